@@ -23,38 +23,47 @@ def pca_fit(res, F):
 
 
 def rule_guard(ctx):
+    from .sym import rejecting_exits, sufficient_cmps, int_test
     res = RuleResult("R-C18-guard", "empty-dataset and embedding-size tests return errors before the records are reduced or decomposed")
     F = ctx.facts()
     for fn in pca_fit(res, F):
         key = fn_key(fn)
-        tr = Tracer(fn).run()
+        tr = Tracer(fn, inline=ctx.inliner()).run()
         work = [e for e in tr.events if e.kind == "call" and e.name in ("mean_axis", "decompose", "new_with_rng", "new", "sub", "svd", "dot") and e.closure_depth == 0 and (e.recv is None or "param:dataset" in k(e.recv) or e.name in ("decompose",))]
         work = [e for e in work if e.name != "new" or "TruncatedSvd" in (e.d or {}).get("path", "")]
         if not work:
             res.missing_anchor("decomposition calls in PcaParams::fit")
             continue
         first = min(e.order for e in work)
-        rets = [e for e in tr.events if e.kind == "ret" and e.order < first and as_term(e.val) is not None and as_term(e.val).is_call("Err")]
+        exits = rejecting_exits(tr, first)
+        is_n = lambda a: "call:nsamples(" in a or "call:nrows(" in a or "call:len_of(" in a
+        is_k = lambda a: "embedding_size" in a
+        is_p = lambda a: "call:nfeatures(" in a or "call:ncols(" in a
+        explained = set()
 
-        def guarded_by(pred):
-            for e in rets:
-                for g in e.guards:
-                    for t in walk_terms(g[3]):
-                        if isinstance(t, Cmp):
-                            v = pred(t, g[0])
-                            if v:
-                                return v
-            return None
+        def rejects(pred):
+            hit = False
+            for e in exits:
+                for g in e.guards[-1:]:
+                    for c, holds in sufficient_cmps(g[3], g[0] == "+"):
+                        if pred(c, holds):
+                            explained.add(id(e))
+                            hit = True
+            return hit
         checks = [
-            ("empty dataset", lambda t, s: s == "+" and t.cop == "==" and any("call:nsamples(" in a or "call:nrows(" in a for a in t.poly.atoms()) and t.poly.t.get((), 0) == 0),
-            ("embedding_size == 0", lambda t, s: s in ("+",) and t.cop == "==" and any("embedding_size" in a for a in t.poly.atoms()) and len(t.poly.atoms()) == 1 and t.poly.t.get((), 0) == 0),
-            ("embedding_size > nfeatures", lambda t, s: t.asserts_less(lambda a: "call:nfeatures(" in a or "call:ncols(" in a, lambda b: "embedding_size" in b) == "strict"),
+            ("empty dataset", lambda c, h: int_test(c, h, is_n) == {0}),
+            ("embedding_size == 0", lambda c, h: int_test(c, h, is_k) == {0}),
+            ("embedding_size > nfeatures", lambda c, h: (c.relation(is_p, is_k) in ("<",) and h) or (c.relation(is_p, is_k) in (">=",) and not h)),
         ]
-        for name, pred in checks:
+        results = [(name, rejects(pred)) for name, pred in checks]
+        unexplained = [e for e in exits if id(e) not in explained]
+        for name, ok in results:
             res.instance("%s : %s -> Err before decomposition" % (key, name))
-            if guarded_by(pred):
+            if ok:
                 res.ok()
                 res.sample({"fn": key, "guard": name})
+            elif unexplained:
+                res.undecided("%s : guard-unclassified:%s" % (key, name), "no `%s -> Err` test recognised before the decomposition, but %d rejecting exit(s) with conditions this rule does not understand precede it (e.g. `%s`)" % (name, len(unexplained), unexplained[0].guards[-1][1][:80]), fn_loc(fn, unexplained[0].node.get("ln")))
             else:
                 res.violate("%s : guard-missing:%s" % (key, name), "no `%s -> return Err(..)` test dominates the decomposition" % name, fn_loc(fn))
     return res.finish(3)
@@ -103,10 +112,10 @@ def rule_n(ctx):
                 res.ok()
                 res.sample({"site": inst, "form": "normalised by its own sum (any common divisor cancels)"})
             else:
-                res.violate("%s : ratio-form" % key, "ratio is neither sigma^2/(n-1) normalised nor sigma^2 normalised by its own sum: %s" % k(rv)[:100], fn_loc(fn))
+                res.undecided("%s : ratio-form" % key, "ratio is neither sigma^2/(n-1) normalised nor sigma^2 normalised by its own sum: %s" % k(rv)[:100], fn_loc(fn))
             continue
         if not divs:
-            res.violate("%s : no-variance-division" % key, "no `sigma^2 / divisor` expression found (fail closed)", fn_loc(fn))
+            res.undecided("%s : no-variance-division" % key, "no `sigma^2 / divisor` expression found (fail closed)", fn_loc(fn))
             continue
         for n in divs:
             d = n["r"]
@@ -162,7 +171,7 @@ def rule_project(ctx):
             raise Unclassified("inverse_transform has no value")
     except Unclassified as e:
         res.instance("Pca predict / inverse_transform : normal form")
-        res.violate("linfa_reduction::Pca : projection-unclassified", "cannot bring predict_inplace / inverse_transform into the dot/+/-/t normal form (fail closed): %s" % e.msg, fn_loc(pf if 'vnf' not in dir() else vf, e.ln))
+        res.undecided("linfa_reduction::Pca : projection-unclassified", "cannot bring predict_inplace / inverse_transform into the dot/+/-/t normal form (fail closed): %s" % e.msg, fn_loc(pf if 'vnf' not in dir() else vf, e.ln))
         return res.finish(2)
     vectors = pe.vectors | ve.vectors
     renorm = lambda nf: NF(dict((canon(ch, vectors), v) for ch, v in nf.t.items())) if len(set(canon(ch, vectors) for ch in nf.t)) == len(nf.t) else nf
@@ -175,8 +184,8 @@ def rule_project(ctx):
     res.instance("%s : *targets = %s" % (fn_key(pf), pnf.show()))
     res.instance("%s : returns %s" % (fn_key(vf), vnf.show()))
     if len(mats) != 1 or len(vecs) != 1:
-        res.violate("linfa_reduction::Pca : projection-fields", "expected exactly one matrix field (components) and one vector field (mean) in predict/inverse_transform, found %s / %s" % (mats, vecs), fn_loc(pf))
-        res.violate("linfa_reduction::Pca : projection-fields#2", "see above", fn_loc(vf))
+        res.undecided("linfa_reduction::Pca : projection-fields", "expected exactly one matrix field (components) and one vector field (mean) in predict/inverse_transform, found %s / %s" % (mats, vecs), fn_loc(pf))
+        res.undecided("linfa_reduction::Pca : projection-fields#2", "see above", fn_loc(vf))
         return res.finish(2)
     E, m = mats[0], vecs[0]
     one = Fraction(1)
